@@ -163,6 +163,18 @@ def run_shard(shard, rec):
     for i, (kind, v) in enumerate(inputs):
         rec.journal(i)
         _one(i, kind, v, rec, tz, log, nonzero)
+    # struct_time exactly as time.localtime() returns it in THIS process (11
+    # fields incl. tm_gmtoff / tm_zone): its wall-clock fields are read as
+    # UTC.  The input itself depends on the zone, so it is judged against the
+    # arithmetic reference only and kept out of the cross-configuration log.
+    k = 0
+    for kind, v in [x for x in inputs if x[0] == 'aware-utc'][:400]:
+        if True:
+            lt = time.localtime(refcodec.instant_seconds(v))
+            if 0 <= refcodec.instant_seconds(lt) < 2**32:
+                _one(10**6 + k, 'struct_time-from-localtime', lt, rec, tz,
+                     None, nonzero)
+                k += 1
     rec.seen('log_digests', (tz, log.hexdigest(), len(inputs)))
     rec.count('configs_run')
     if nonzero:
@@ -315,7 +327,7 @@ def gates(m, tier):
         out.append('no millisecond wire value decoded')
     for k in ('aware-utc', 'aware-zone', 'aware-fixed', 'naive-local-fields',
               'naive-utc-fields', 'struct_time', 'struct_time-local-fields',
-              'naive-gap-or-fold'):
+              'naive-gap-or-fold', 'struct_time-from-localtime'):
         if k not in m.sets.get('input_kinds', ()):
             out.append('input kind %s never exercised' % k)
     return out
